@@ -29,6 +29,27 @@ def multiline_grammar(rng):
             'pub S: u32 = {\n    "a" => %s,\n    "b" <s:S> =>\n        s\n            + 1,\n};\n' % body)
 
 
+def selfgroup_grammar(rng):
+    """tuple patterns on groups that contain the host (or a mutually recursive) nonterminal:
+    type inference has to look through the group while the host is still being inferred"""
+    names = ["A", "B", "C"][:rng.randint(1, 3)]
+    terms = ["a", "b", "c", "d", "e", "f", "g"]
+    out = "use crate::support::*;\ngrammar;\nextern {\n    type Location = usize;\n    type Error = UErr;\n    enum Tok {\n"
+    for i, t in enumerate(terms):
+        out += '        "%s" => Tok { kind: K%d, .. },\n' % (t, i)
+    out += "    }\n}\n"
+    out += "pub S: V = { <x:%s> \"g\" => V::node(0, vec![x.to_v()]) };\n" % names[0]
+    pid = 1
+    for i, n in enumerate(names):
+        inner = rng.choice(names)
+        lead = terms[i * 2]
+        out += "%s: V = {\n" % n
+        out += '    <(p, q, r):("%s" %s "%s")> <w:"%s"> => V::node(%d, vec![p.to_v(), q.to_v(), r.to_v(), w.to_v()]),\n' % (lead, inner, rng.choice(terms[:4]), rng.choice(terms[:6]), pid)
+        out += '    "%s" => V::node(%d, vec![]),\n};\n' % (terms[i * 2 + 1], pid + 1)
+        pid += 2
+    return out
+
+
 def generated(rng, n):
     out = []
     makers = [
@@ -41,6 +62,8 @@ def generated(rng, n):
         ("lexer", lambda r: lexgen.gen_spec(r, match_p=0.7).grammar_text()),
     ]
     makers.append(("multiline", multiline_grammar))
+    makers.append(("selfgroup", selfgroup_grammar))
+    makers.append(("patterns", lambda r: gmodel.grammar_text(gen.gen_core(r, pat=0.95, sugar=0.45, modes=("user",)))))
     i = 0
     while len(out) < n:
         name, mk = makers[i % len(makers)]
